@@ -21,20 +21,20 @@ NOTES = ("Every check is solver-based (DESIGN.md): Engine K = Kani/CBMC over the
 NOT_APPLICABLE = {
     "C01": "not built yet (Engine S, see DESIGN.md section 5)",
     "C02": "not built yet (Engine S, see DESIGN.md section 5)",
-    "C04": "not built yet",
+    "C04": "harnesses under construction (not yet registered)",
     "C07": "not built yet",
     "C08": "not built yet",
     "C09": "not built yet",
-    "C10": "not built yet",
-    "C12": "not built yet",
-    "C13": "not built yet",
+    "C10": "harnesses under construction (not yet registered)",
+    "C12": "harnesses under construction (not yet registered)",
+    "C13": "harnesses under construction (not yet registered)",
     "C14": "not built yet",
     "C15": "not built yet",
     "C16": "not built yet",
     "C17": "not built yet",
-    "C18": "not built yet",
-    "C19": "not built yet",
-    "C20": "not built yet",
+    "C18": "harnesses under construction (not yet registered)",
+    "C19": "harnesses under construction (not yet registered)",
+    "C20": "harnesses under construction (not yet registered)",
 }
 
 def kprop(level_text, level_note, assumptions=None, engines=("kani",), trusted=None):
@@ -42,6 +42,9 @@ def kprop(level_text, level_note, assumptions=None, engines=("kani",), trusted=N
             "assumptions": K_FLOAT_ASSUME + (assumptions or []), "level_text": level_text, "level_note": level_note,
             "trusted": trusted or []}
 
+
+# Properties whose checks are built but not yet registered in MANIFEST.json (kept in NOT_APPLICABLE until they pass).
+UNREGISTERED = set(NOT_APPLICABLE)
 
 PROPS = {
     "C03": kprop(
@@ -51,6 +54,38 @@ PROPS = {
         "TryFromColor blanket impls on four cheap conversion pairs.",
         "Trusted: Kani/CBMC/cadical. NaN/inf components are outside the property. FromColor/TryFromColor are blanket impls (one "
         "piece of code for all pairs); they are instantiated on Hsv<->Hwb and Xyz<->Yxy."),
+    "C04": kprop(
+        "Bounded model checking of every zero-copy cast entry point on representative instantiations: same address, lengths and "
+        "capacities scale exactly, field order with alpha last, bit-identical round trips, rejection exactly on non-multiples with "
+        "the buffer handed back; CBMC memory-safety checks cover the unsafe pointer casts. Buffers up to the stated small lengths.",
+        "Trusted: Kani/CBMC/cadical and Kani's model of the allocator. Longer buffers are outside the bound; the length arithmetic is "
+        "checked separately at symbolic usize."),
+    "C10": kprop(
+        "Bounded model checking of operator-variant agreement (by-value vs assigning vs slice vs Alpha-wrapped forms, darken/desaturate "
+        "vs negated lighten/saturate) bit for bit on the compiled code, for one representative type per macro family.",
+        "Trusted: Kani/CBMC/cadical. The real-valued operator algebra (mix end points, monotonicity, shorter hue arc) is decided by Engine S."),
+    "C12": kprop(
+        "Bounded model checking of hex parsing/formatting, packed-integer channel orders and the named-colour table: strings are symbolic "
+        "byte arrays up to the stated length (ASCII, and ASCII with embedded multi-byte scalars built valid by construction), packed "
+        "values are all 2^32 at once.",
+        "Trusted: Kani/CBMC/cadical; Kani's model of core::fmt for the formatting round trip. Strings longer than the bound are outside the claim."),
+    "C13": kprop(
+        "Bounded model checking of in-place conversion and guards on buffers of concrete length 0..3 with symbolic contents: element-wise "
+        "equality with the out-of-place conversion, same address/length/capacity, one guard operation from an arbitrary live guard state "
+        "plus explicit chains up to depth 4; CBMC memory-safety checks cover the ptr::read/ptr::write loops.",
+        "Trusted: Kani/CBMC/cadical. Component type is a cheap harness number type where the conversion's numeric content is irrelevant."),
+    "C18": kprop(
+        "Bounded model checking of the struct-of-arrays collections as a refinement of Vec<Color>: from an arbitrary valid state of "
+        "concrete length n in 0..3 (symbolic contents) one operation with symbolic arguments, plus explicit two/three step scripts.",
+        "Trusted: Kani/CBMC/cadical and Kani's Vec/allocator model. Collections longer than 3 and growth beyond capacity 4 are outside the bound."),
+    "C19": kprop(
+        "Bounded model checking of the samplers with the RNG replaced by a nondeterministic stub (every RNG stream at once): samples stay "
+        "inside the type's bounds / between the two ends, hues on the requested arc.",
+        "Trusted: Kani/CBMC/cadical; rand's Uniform/Standard float contracts. The volume law is decided by Engine S."),
+    "C20": kprop(
+        "Bounded model checking of the real Serialize/Deserialize impls against an in-harness serde data-model back end (token recorder, "
+        "self-describing and compact): round trip bit for bit, shape of Alpha / hue / metadata, missing alpha => opaque, helper forms.",
+        "Trusted: Kani/CBMC/cadical; the in-harness serde back end. The JSON/RON text layer is outside the claim."),
     "C05": kprop(
         "Bit-precise bounded model checking of the integer fast paths: for each encoding the real from_linear/into_linear impls and "
         "the real lookup tables are executed symbolically over ALL f32 (2^32) / f64 (2^64) inputs and all codes: totality and "
